@@ -1333,7 +1333,15 @@ func genHistory(r *common.Rand, sc *ck.Script, s *sim, n int) []ck.Op {
 func gcUniverse(sc *ck.Script) bool { return len(sc.Blobs) == 7 && sc.Blobs[6].Kind == "manifest" }
 
 func runGenerated(r *common.Rand, histLen int, kind string, big bool, allK bool, crashes int) {
-	runGeneratedIn(r, &ck.Script{Blobs: universe(r, big)}, histLen, kind, allK, crashes)
+	sc := &ck.Script{Blobs: universe(r, big)}
+	// the store's default is AutoGC on: a share of the plain scripts runs with it (their
+	// cascades depend on Go's map order; kill runs whose order differs from the recorded one
+	// are judged by the oracle only)
+	if strings.HasPrefix(kind, "delete") && r.Chance(1, 3) {
+		sc.AutoGC = true
+		run.Count("plain-universe-autogc")
+	}
+	runGeneratedIn(r, sc, histLen, kind, allK, crashes)
 }
 
 func runGeneratedIn(r *common.Rand, sc *ck.Script, histLen int, kind string, allK bool, crashes int) {
